@@ -2279,7 +2279,7 @@ static void DecodeFPO2(Word Code) {
         Byte    AdrByte;
         Boolean OK;
 
-        AdrByte = EvalStrIntExpression(&ArgStr[1], Int4, &OK);
+        AdrByte = EvalStrIntExpression(&ArgStr[1], UInt4, &OK);
         if (OK) {
             BAsmCode[CodeLen]     = 0x66 + (AdrByte >> 3);
             BAsmCode[CodeLen + 1] = (AdrByte & 7) << 3;
